@@ -53,7 +53,7 @@ pub fn glob_match(pat: &[u8], s: &[u8]) -> bool {
                         }
                     } else if pat[p] == b']' {
                         break;
-                    } else if p + 2 < pat.len() && pat[p + 1] == b'-' && pat[p + 2] != b']' {
+                    } else if p + 2 < pat.len() && pat[p + 1] == b'-' {
                         let (mut lo, mut hi) = (pat[p], pat[p + 2]);
                         if lo > hi {
                             std::mem::swap(&mut lo, &mut hi);
